@@ -544,7 +544,10 @@ def real_cases(ctx):
             seas.append(gen_sea(rng, "main" if r < 0.7 else ("marginal" if r < 0.87 else "calm")))
         dedt = None
         if rng.random() < 0.45:
-            dedt = {"c1": rng.choice([-1, 1]) * rng.uniform(1e-5, 5e-5), "c2": rng.choice([-1, 1]) * rng.uniform(2e-5, 1e-4),
+            # a third of the rate-of-change spectra are strong (the sea grows by a factor e in an hour or less): the
+            # supplied dE/dt then moves the balancing wind by metres per second, not hundredths
+            big = 8.0 if rng.random() < 0.35 else 1.0
+            dedt = {"c1": (1 if big > 1 else rng.choice([-1, 1])) * big * rng.uniform(1e-5, 5e-5), "c2": rng.choice([-1, 1]) * rng.uniform(2e-5, 1e-4),
                     "c3": rng.choice([-1, 1]) * rng.uniform(1e-7, 2e-6)}
         anyhf = any(x.get("hf") for x in seas)
         batches.append(dict(pair=rng.choice([["st4", "st4"], ["st4", "st6"]]), nf=(64 if anyhf else rng.choice([36, 48])),
